@@ -134,19 +134,19 @@ let () =
          let decl = "<?xml version=\"1.0\" encoding=\"UTF-8\" ?>" in
          let doc = if isT then (if text = "" then decl ^ "<r />" else decl ^ "<r>" ^ enc ^ "</r>")
                    else (let q = if String.contains text '"' then "'" else "\"" in decl ^ "<r a=" ^ q ^ enc ^ q ^ " />") in
-         (* utf8 = false: Xml.cpp parses with TIXML_ENCODING_UNKNOWN and the declaration's encoding is never picked up
-            (shadowed variable in TiXmlDocument::Parse), see known finding xml_reference_above_127_truncated *)
+         (* utf8 = true: the declaration's encoding="UTF-8" is picked up by TiXmlDocument::Parse (since /repo adf1b7a8; before that
+            fix a shadowed variable left the parser in the unknown-encoding mode: fixed finding xml_reference_above_127_truncated) *)
          let q = if String.contains text '"' then "'" else "\"" in
-         let back = if isT then xml_read_text cw false (str_of_string (enc ^ "</r>"))
-                    else xml_read_attr false (n_of_int (Char.code q.[0])) (str_of_string (enc ^ q ^ " />")) in
+         let back = if isT then xml_read_text cw true (str_of_string (enc ^ "</r>"))
+                    else xml_read_attr true (n_of_int (Char.code q.[0])) (str_of_string (enc ^ q ^ " />")) in
          (match back with
           | Some r -> Printf.printf "%s 1 %s" (tohex doc) (tohex (string_of_str r))
           | None -> print_string "0")
      | ["XR"; cw; h] ->
          let cw = cw <> "0" in let s = str_of_string (unhex h) in
          let content = unhex h in
-         (match xml_read_attr false (n_of_int 34) (str_of_string (content ^ "\">" ^ content ^ "</r>")),
-                xml_read_text cw false (str_of_string (content ^ "</r>")) with
+         (match xml_read_attr true (n_of_int 34) (str_of_string (content ^ "\">" ^ content ^ "</r>")),
+                xml_read_text cw true (str_of_string (content ^ "</r>")) with
           | Some a, Some t -> Printf.printf "1 %s %s" (tohex (string_of_str a)) (tohex (string_of_str t))
           | _ -> print_string "0")
      | [] -> ()
